@@ -8393,10 +8393,13 @@ eval_node_type_with_predicate(const struct lyxp_expr *exp, uint32_t *tok_idx, en
 {
     LY_ERR rc;
 
-    (void)all_desc;
-
     if (!(options & LYXP_SKIP_EXPR)) {
         assert(exp->tok_len[*tok_idx] == 4);
+        if (all_desc) {
+            /* "//" == "/descendant-or-self::node()/" */
+            rc = xpath_pi_node(set, LYXP_AXIS_DESCENDANT_OR_SELF, options);
+            LY_CHECK_RET(rc);
+        }
         if (!strncmp(&exp->expr[exp->tok_pos[*tok_idx]], "node", 4)) {
             rc = xpath_pi_node(set, axis, options);
         } else {
